@@ -186,12 +186,27 @@ struct Harness {
                 // product of the chain, left to right: P = g[i0]*g[i1]*...; as a function: apply the LAST factor first
                 auto P = to_lib<N, T>(gen[idx[0]]);
                 for (size_t q = 1; q < idx.size(); ++q) P = P * to_lib<N, T>(gen[idx[q]]);
+                // the same chain the way a user writes it, a * b * c * d: every left operand after the first is a temporary
+                // (value category is an input too: overloads for expiring operands are different code)
+                std::function<covfie::algebra::affine<N, T>(size_t)> chain_tmp = [&](size_t q) -> covfie::algebra::affine<N, T> {
+                    if (q == 0) return to_lib<N, T>(gen[idx[0]]);
+                    return chain_tmp(q - 1) * to_lib<N, T>(gen[idx[q]]);
+                };
+                const covfie::algebra::affine<N, T> Pt = chain_tmp(idx.size() - 1);
+                // and with a const lvalue on the left and an expiring right operand
+                covfie::algebra::affine<N, T> Pr = to_lib<N, T>(gen[idx.back()]);
+                for (size_t q = idx.size() - 1; q-- > 0;) {
+                    const covfie::algebra::affine<N, T> lhs = to_lib<N, T>(gen[idx[q]]);
+                    Pr = lhs * std::move(Pr);
+                }
                 for (auto & x : xs) {
                     std::array<long, N> y = x;
                     for (size_t q = idx.size(); q-- > 0;) y = gen[idx[q]].apply(y);
                     covfie::array::array<T, N> xc;
                     for (size_t k = 0; k < N; ++k) xc[k] = static_cast<T>(x[k]);
                     auto got = P * covfie::algebra::vector<N, T>(xc);
+                    auto got_t = Pt * covfie::algebra::vector<N, T>(xc);
+                    auto got_r = Pr * covfie::algebra::vector<N, T>(xc);
                     // and the sequential application through the library
                     covfie::algebra::vector<N, T> seq(xc);
                     for (size_t q = idx.size(); q-- > 0;) seq = to_lib<N, T>(gen[idx[q]]) * seq;
@@ -199,6 +214,11 @@ struct Harness {
                     ++R.transitions;
                     for (size_t k = 0; k < N; ++k) {
                         R.observe(static_cast<uint64_t>(static_cast<long>(got(k))));
+                        if (got_t(k) != static_cast<T>(y[k]) || got_r(k) != static_cast<T>(y[k])) {
+                            std::string ch;
+                            for (auto i : idx) ch += gen[i].str() + "*";
+                            R.viol("compose_expiring:" + tn, "the product written with temporary / expiring operands gives (product)*v = " + std::to_string(got_t(k)) + " (temporaries on the left) and " + std::to_string(got_r(k)) + " (expiring right operand), composition of the maps = " + std::to_string(y[k]) + " (component " + std::to_string(k) + ")", "compose " + tn + " " + ch + " x" + vec_str(x, N));
+                        }
                         if (got(k) != static_cast<T>(y[k]) || seq(k) != static_cast<T>(y[k])) {
                             std::string ch;
                             for (auto i : idx) ch += gen[i].str() + "*";
